@@ -565,6 +565,9 @@ def convert_params(params, cnt):
         if ty == '':
             # unnamed parameter: type only
             ty, name = name, 'unnamed%d' % len(out)
+        elif name == 'const' and ty.endswith('*') and not arr:
+            # unnamed pointer parameter with a trailing qualifier (`MemoryManager* const`)
+            ty, name = ty + ' const', 'unnamed%d' % len(out)
         elif (re.fullmatch(r'(?:(?:const|volatile)\s*)+', ty) or
               name in ('int', 'char', 'short', 'long', 'unsigned', 'bool', 'float', 'double')) and not arr:
             # unnamed parameter whose type has several words (`const UnRepOpts`, `const unsigned int`): the last
@@ -621,6 +624,9 @@ def gen_struct(relfile, cls, opts, cnt):
     """opts: dict(name=structname, self=SELFNAME or None, enums={type:'int'}, opaque=[types], only=[members],
     override={member: 'decl'})"""
     src = read_src(relfile)
+    if opts.get('scope'):
+        # nested class/struct: look for it inside the body of the enclosing class (additive option scope=Outer)
+        src = class_body(src, opts['scope'])
     body = flatten_depth0(class_body(src, cls))
     members = []
     for stmt in body.split(';'):
@@ -1197,6 +1203,8 @@ def process(template_path):
                     opts['enums'] = {e: 'int' for e in kv['enums'].split(',')}
                 if 'structs' in kv:
                     opts['structs'] = kv['structs'].split(',')
+                if 'scope' in kv:
+                    opts['scope'] = kv['scope']
                 if 'plain' in kv:
                     opts['plain'] = True
                 ov = {}
